@@ -116,12 +116,14 @@ class Protected:
                 r = strip(rhs, all_casts=True)
                 arms = [strip(r["a"], all_casts=True), strip(r["b"], all_casts=True)] if r.get("k") == "cond" else [r]
                 flds = {a.get("f") for a in arms if a.get("k") == "mem"}
-                if op == "=" and len(flds) == 1 and all(a.get("k") == "mem" or cval(a) == 0 for a in arms):
-                    if rv.setdefault(vid, list(flds)[0]) != list(flds)[0]:
+                if op == "=" and len(flds) <= 1 and all(a.get("k") == "mem" or cval(a) == 0 for a in arms):
+                    if flds and rv.setdefault(vid, list(flds)[0]) != list(flds)[0]:
                         bad.add(vid)
+                    elif not flds:
+                        rv.setdefault(vid, None)
                 else:
                     bad.add(vid)
-        self._rv = {k: v for k, v in rv.items() if k not in bad}
+        self._rv = {k: v for k, v in rv.items() if k not in bad and v is not None}
         return self._rv
 
     def store_sites(self, el):
@@ -261,6 +263,20 @@ def check_function(prog, res, f, obj_ids, is_error, label=None, summaries=None, 
             # failure discovered after the store? (a call made since the first store decides the error)
             later = False
             conds = deciding_conditions(f, pos[0]) + [vexpr]
+            # error handling of an operation that had already begun: the store serves error paths only (every return reachable
+            # from it is an error return) and the deciding condition tests a call that was handed a pointer into the object
+            touched_calls = set()
+            for bb, ii, m in f.walk_all():
+                if m.get("k") == "call" and "sid" in m and any(root_of(a) in prot.ids for a in m.get("args", [])):
+                    touched_calls.add(m["sid"])
+            cav_t = {vid for vid, sids in cav.items() if sids & touched_calls}
+            decided_by_touch = False
+            for c in conds:
+                for nn in walk(c):
+                    if nn.get("k") == "call" and nn.get("sid") in touched_calls:
+                        decided_by_touch = True
+                    if nn.get("k") == "ref" and nn["d"].get("id") in cav_t:
+                        decided_by_touch = True
             for c in conds:
                 for n in walk(c):
                     if n.get("k") == "call" and n.get("sid") in calls:
@@ -272,8 +288,10 @@ def check_function(prog, res, f, obj_ids, is_error, label=None, summaries=None, 
                 sn = prot.store_sites(sel)
                 stxt = norm(show(sn[0], f)) if sn else norm(show(sel, f))
                 key = "%s:%s -> %s" % (name, stxt, norm(show(el, f)))
-                if later:
-                    res.ob(key, True, f, sel.get("l", 0), detail={"note": "failure discovered after the store (later call decides)"})
+                err_only = decided_by_touch and error_only_block(an, f, sb, is_error)
+                if later or err_only:
+                    res.ob(key, True, f, sel.get("l", 0), detail={"note": "failure discovered after the store (later call decides)" if later else
+                                                                  "error handling of an operation already begun (store serves error paths only, a call on the object decides)"})
                 else:
                     res.ob(key, False, f, sel.get("l", 0),
                            "object modified (%s, line %s) on a path that then refuses with %s (line %s)" % (stxt, sel.get("l"), norm(show(el, f)), el.get("l")),
@@ -281,6 +299,31 @@ def check_function(prog, res, f, obj_ids, is_error, label=None, summaries=None, 
     # one obligation per function stating that its error paths were enumerated
     res.ob("%s:error-paths" % name, True, f, f.line, detail={"error_return_path_classes": nret})
     return nret
+
+
+def error_only_block(an, f, bid, is_error):
+    """every return reachable from block bid is an error return"""
+    reach = f.reachable_from(bid)
+    seen_ret = False
+    for x in reach:
+        for idx, el in enumerate(f.blocks[x].el):
+            if el.get("k") == "ret":
+                if el.get("e") is None:
+                    return False
+                seen_ret = True
+                rv = an.val(x, idx, el["e"])
+                if rv is None:
+                    continue
+                c = strip(el["e"], all_casts=True)
+                if c.get("k") == "cond":
+                    # both arms must be errors
+                    va = an.val(x, idx, c["a"])
+                    vb = an.val(x, idx, c["b"])
+                    if not (is_error(va, c["a"], f) and is_error(vb, c["b"], f)):
+                        return False
+                elif not is_error(rv, el["e"], f):
+                    return False
+    return seen_ret
 
 
 def neg_error(rv, e, f):
